@@ -229,7 +229,7 @@ def check(prop, tier, seed):
     # ---------------- bounded stand-in
     rac = None
     if meta.get('rac'):
-        rac = run_rac(prop, tier, seed, timeout=meta.get('rac_timeout', {}).get(tier, 900 if tier == 'quick' else 7200))
+        rac = run_rac(prop, tier, seed, timeout=meta.get('rac_timeout', {}).get(tier, 420 if tier == 'quick' else 5400))
         if rac['status'] != 'ok':
             crash.append('bounded runner %s: %s' % (rac['status'], rac.get('detail', '')[-2000:]))
         else:
